@@ -1,5 +1,6 @@
 import Driver.Util
 import KavaVerif.Model.Liquid
+import KavaVerif.Model.LiquidBurnGuard
 /-!
   C12 driver.  Three self-contained case kinds (TAB separated, produced by harness/cmd/c12):
 
@@ -8,7 +9,12 @@ import KavaVerif.Model.Liquid
             delU delM ubdU ubdM nRedU balU earnU balM supply
             kind ∈ mint burn mintdep delmintdep wburn wburnundel delegate undelegate redelout redelin
             (one validator's slice; U = the acting account, M = x/liquid's module account; "-" = no delegation)
+            for kind burn, denomOk = "the coin's denom is the derivative denom of the validator the message names"
+            (the slice is the one stored under the NAMED validator; balU is the signer's balance of ITS derivative)
   c12.inv   why | per validator  found:tokens:shares:delM:supply:zeroShareDelegations  joined by ";"
+            (after every event AND after every successful operation: why = "op-<kind>")
+  c12.cross class | denomOk | result | table before | table after   (tables as in c12.inv)
+            a MsgBurnDerivative whose coin is not the named validator's derivative: all validators before / after
   c12.tally vals "tokens:shares:inTallySet:statusBonded;…" | votes "oper|opts|dels|wallet|savings|earn;…" | "=>" result yes abstain no veto totalBonded
 
   (1) the Lean model is run on the observed pre-state and compared with the observed post-state (MISMATCH);
@@ -85,7 +91,7 @@ def runKind (kind : String) (c : VSt) (denomOk : Bool) (amount : Int) (aux : Boo
     match r with | .ok c' => ("ok", c') | .err => ("err", c) | .panic => ("panic", c)
   match kind with
   | "mint" => fin (mint cfg aM c aU denomOk amount)
-  | "burn" => fin (burn cfg aM c aU amount)
+  | "burn" => fin (burnMsg cfg aM c aU denomOk amount)
   | "mintdep" => fin0 (mintDeposit cfg aM aE c aU denomOk amount)
   | "delmintdep" => fin0 (delegateMintDeposit cfg aM aE c aU denomOk amount)
   | "wburn" => fin (withdrawBurn cfg aM aE c aU denomOk amount aux)
@@ -110,20 +116,24 @@ def belowMin (tokens shares minSelf : Int) (sh : Int) : Bool :=
   ({ tokens := tokens, shares := ⟨shares⟩, status := .bonded, minSelf := minSelf, jailed := false, oper := 0 } : Val).belowMinSelf ⟨sh⟩
 
 /-- the property predicates on one observed slice transition -/
-def xferPreds (kind : String) (p q : Slice) (minSelf : Int) (isOper redelU redelM : Bool) (amount : Int) (result : String) : String :=
+def xferPreds (kind : String) (p q : Slice) (minSelf : Int) (isOper redelU redelM : Bool) (denomOk : Bool) (amount : Int)
+    (result : String) : String :=
   if result == "panic" then
     -- x/distribution's hook divides by the validator's shares: zero only next to a zero-share delegation (F6 + F7)
     predfail "C12_no_panic" (if p.found && p.shares == 0 then "distribution-hook-zero-shares" else kind)
   else if result == "err" then
     -- "so every holder can always redeem"
-    if kind == "burn" && amount > 0 && p.balU ≥ amount && p.found && !redelM && dm p.delM < amount * P then
+    if kind == "burn" && denomOk && amount > 0 && p.balU ≥ amount && p.found && !redelM && dm p.delM < amount * P then
       predfail "C12_redeemable" "module-delegation-short"
     else "ok"
   else
   let defPre := deficit p.supply p.delM
   let defPost := deficit q.supply q.delM
   -- guards
-  if (isMintLike kind && kind != "delmintdep" && redelU) || (isBurnLike kind && redelM) then predfail "C12_guards" "incoming-redelegation-accepted"
+  -- "burning moves it back": only the derivative OF THE NAMED VALIDATOR redeems shares of the module's delegation to it
+  if kind == "burn" && !denomOk then
+    predfail "C12_guards" s!"burn-denom-validator-mismatch-accepted moduleShares={dm p.delM}->{dm q.delM} supplyOfNamed={p.supply}->{q.supply}"
+  else if (isMintLike kind && kind != "delmintdep" && redelU) || (isBurnLike kind && redelM) then predfail "C12_guards" "incoming-redelegation-accepted"
   else if kind == "mint" && isOper && p.shares > 0 && belowMin p.tokens p.shares minSelf (dm q.delU) then
     predfail "C12_guards" "self-delegation-below-minimum-accepted"
   -- bonded tokens / status untouched by a conversion
@@ -206,7 +216,7 @@ def handleXfer : Handler := fun l =>
     let (cls, c') := runKind kind c denomOk amount aux
     -- the predicates only read the implementation's observation; a predicate failure is the sharper verdict and is
     -- reported even when the model disagrees with the implementation on this case
-    let pred := xferPreds kind p q minSelf isOper redelU redelM amount result
+    let pred := xferPreds kind p q minSelf isOper redelU redelM denomOk amount result
     if cls == "bad" then badInput "kind"
     else if pred != "ok" then pred
     else if cls != result then mismatch "result" cls result
@@ -228,6 +238,48 @@ def handleInv : Handler
         | _, _, _, _, _ => badInput "inv-parse"
       | _ => badInput "inv-arity"
     (strs vals ";").foldl go "ok"
+  | _ => badInput "arity"
+
+/-- supply·10^18 − module shares of every validator of a table (c12.inv format) -/
+def deficits (tbl : String) : List Int :=
+  (strs tbl ";").map fun r =>
+    match r.splitOn ":" with
+    | [_, _, _, delM, supply, _] =>
+      match optDec? delM, int? supply with
+      | some delM, some supply => deficit supply delM
+      | _, _ => 0
+    | _ => 0
+
+/-- first validator whose derivative is unbacked after and was not (or less so) before -/
+def newDeficit (before after : String) : Option Nat :=
+  let rec go (i : Nat) : List Int → List Int → Option Nat
+    | b :: bs, a :: as => if a > 0 && a > (if b > 0 then b else 0) then some i else go (i + 1) bs as
+    | _, _ => none
+  go 0 (deficits before) (deficits after)
+
+/-- a MsgBurnDerivative whose coin is not the derivative of the validator it names: it must fail and change nothing,
+    on every validator -/
+def handleCross : Handler
+  | [cls, denomOk, result, before, after] =>
+    match bool? denomOk with
+    | none => badInput "cross-parse"
+    | some denomOk =>
+      if denomOk then badInput "cross-denomOk"
+      else if result == "panic" then predfail "C12_no_panic" s!"burn-{cls}"
+      else if result == "ok" then
+        let broke := match newDeficit before after with
+          | some v => s!"backing-broken-validator={v}"
+          | none => "backing-kept"
+        predfail "C12_guards" s!"burn-denom-validator-mismatch-accepted class={cls} {broke}"
+      else if result != "err" then badInput "cross-result"
+      else if before.trimAscii.toString != after.trimAscii.toString then predfail "C12_guards" s!"refused-burn-changed-state class={cls}"
+      else
+        -- the model: `stepBurn` with a denom that is not `deriv v` (validator 0 named, coin of validator 1 / no derivative)
+        let dn : CoinDenom := if cls == "not-derivative" || cls == "bare-denom" then .other else .deriv 1
+        let empty : VSt := { val := none, del := fun _ => none, redel := fun _ => false, ubd := fun _ => 0, bal := fun _ => 0, supply := 0 }
+        match stepBurn cfg aM (fun _ => empty) aU 0 dn 1 with
+        | .err => "ok"
+        | _ => mismatch "result" "accepted" result
   | _ => badInput "arity"
 
 def pair? (s : String) : Option (Nat × Int) :=
@@ -291,5 +343,5 @@ def handleTally : Handler
   | _ => badInput "arity"
 
 def handlers : List (String × Handler) :=
-  [("c12.xfer", handleXfer), ("c12.inv", handleInv), ("c12.tally", handleTally)]
+  [("c12.xfer", handleXfer), ("c12.inv", handleInv), ("c12.cross", handleCross), ("c12.tally", handleTally)]
 end Drv.C12
